@@ -273,6 +273,10 @@ def job_snapshot(gear_cls, hist, variables, units, tag, with_current=True):
         O.prove("snapshot:no-other-columns-when-variables-are-selected",
                 set(c_ for _, c_ in got) <= set(c_ for _, c_ in want), props=("C18",),
                 note=f"extra columns {sorted(set(c_ for _, c_ in got) - set(c_ for _, c_ in want))}")
+        labels = {(v if v == "pwm" else f"{v} ({units[UNIT_ARG[v]]})") for v in req}
+        O.prove("snapshot:frame-columns=exactly-the-requested-variables-labelled-with-their-units(including the columns the frame is created with)",
+                set(fr.columns) == labels and len(fr.columns) == len(labels), props=("C18",),
+                note=f"columns {list(fr.columns)}; expected {sorted(labels)}")
         for key in sorted(got & set(want)):
             e, var = want[key]
             cell = fr.cells[key]
